@@ -418,7 +418,7 @@ impl Scenario {
     }
 }
 
-#[derive(Clone, Debug)]
+#[derive(Clone, Debug, Serialize, Deserialize)]
 pub struct Violation {
     pub oracle: String,
     pub signature: String,
@@ -438,7 +438,7 @@ impl Violation {
     }
 }
 
-#[derive(Clone, Debug, Default)]
+#[derive(Clone, Debug, Default, Serialize, Deserialize)]
 pub struct Stats {
     pub counters: BTreeMap<String, u64>,
     pub distinct: BTreeMap<String, BTreeSet<u64>>,
